@@ -1,1 +1,264 @@
-/-! # C03 — property theorems (stub: not built yet) -/
+import PymocaVerif.Lemmas.ExprGrammar
+import PymocaVerif.Lemmas.ExprLiterals
+import PymocaVerif.Generated.ExprTable
+/-!
+# C03 — parsed expressions follow Modelica precedence and literal values
+
+Theorems about `PymocaVerif.Model.ExprGrammar`: the table-driven model of the generated parser's rule
+`expr` (ANTLR's precedence climbing), the listener's tree building, the Modelica-grammar printer.
+`Generated/ExprTable.lean` is rewritten from `/repo` on every run; `table_ok`/`atn_ok` tie it to the table
+the theorems are about.  All statements are for trees of any depth and any redundant parenthesisation.
+-/
+namespace PymocaVerif.Props.C03
+open PymocaVerif.ExprGrammar PymocaVerif.Generated.ExprTable
+
+/-! ## The tie to the generated parser -/
+
+/-- The table extracted from the Python source of `ModelicaParser.expr` (token sets, `precpred` levels, levels of
+the recursive calls) is the table of the theorems below. -/
+theorem table_ok : exprTable = modelicaData := by decide
+
+example : exprTable.length = 21 := by decide
+
+/-- The table extracted from the deserialised ATN (the precedence predicates and rule-call precedences that
+`adaptivePredict` evaluates) is the same table. -/
+theorem atn_ok : atnTable = modelicaData := by decide
+
+example : atnTable.length = 21 := by decide
+
+/-- The function form of the extracted table. -/
+theorem generated_tbl : Tbl.ofData exprTable = modelicaTbl := by
+  rw [table_ok]
+  unfold Tbl.ofData modelicaTbl
+  congr 1
+  · funext o; cases o <;> rfl
+  · funext o; cases o <;> rfl
+  · funext q; cases q <;> rfl
+
+example : (Tbl.ofData exprTable).lvl .mul = 7 ∧ (Tbl.ofData exprTable).rl .mul = 8 ∧
+    (Tbl.ofData exprTable).plvl .not = 4 := by decide
+
+/-- The side conditions of the round trip hold for pymoca's table: every operator is left associative (right
+operand one level up), levels are positive, no binary level equals a prefix operand level. -/
+theorem table_conditions : TblOK (Tbl.ofData exprTable) := by
+  rw [generated_tbl]; exact modelicaTbl_ok
+
+example : TblOK modelicaTbl := modelicaTbl_ok
+
+/-! ## Round trip -/
+
+/-- A result obtained with some fuel is the result with every larger fuel (so the fuel the driver uses can only
+agree with the witnesses of the theorems below). -/
+theorem parse_fuel_mono (T : Tbl) {f f' : Nat} {ts : List Tok} {e : E}
+    (h : parseTop T f ts = some e) (hle : f ≤ f') : parseTop T f' ts = some e :=
+  monoTop T h hle
+
+example : parseTop modelicaTbl 6 [Tok.atom (.ref "x"), Tok.op .star, Tok.atom (.num "2")]
+    = some (.bin .mul (.atom (.ref "x")) (.atom (.num "2"))) := by rfl
+
+/-- **Round trip for an arbitrary precedence table** satisfying `TblOK`: the minimal-parenthesis printer for the
+table (every `paren` node verbatim) is inverted by the table-driven parser, up to the `paren` nodes, for every
+tree. -/
+theorem parse_print (T : Tbl) (hT : TblOK T) (e : E) :
+    ∃ fuel, ∀ f, fuel ≤ f → parseTop T f (pr T 0 e) = some (strip e) := by
+  obtain ⟨f0, h⟩ := parse_pr T hT e
+  exact ⟨f0, fun f hf => monoTop T h hf⟩
+
+example : parseTop modelicaTbl 12
+    (pr modelicaTbl 0 (.bin .sub (.atom (.ref "a")) (.paren (.bin .sub (.atom (.ref "b")) (.atom (.ref "c"))))))
+    = some (.bin .sub (.atom (.ref "a")) (.bin .sub (.atom (.ref "b")) (.atom (.ref "c")))) := by rfl
+
+/-- **Round trip for Modelica text with pymoca's table**: whatever tree `e` (any depth, any redundant
+parentheses), parsing the text the Modelica grammar prints for it (`mprint`: minimal parentheses by the
+specification's grammar, `paren` nodes verbatim) with the extracted table yields `expected e`. -/
+theorem parse_mprint (e : E) :
+    ∃ fuel, ∀ f, fuel ≤ f → parseTop (Tbl.ofData exprTable) f (mprint e) = some (expected e) := by
+  rw [generated_tbl]
+  obtain ⟨f0, h⟩ := parse_mprint_lemma e
+  exact ⟨f0, fun f hf => monoTop _ h hf⟩
+
+/-- `- a * b ^ 2 < c and not p`, with one redundant pair of parentheses -/
+def sample : E :=
+  .bin .and
+    (.bin .lt (.pre .neg (.bin .mul (.atom (.ref "a")) (.paren (.pow .pow (.atom (.ref "b")) (.atom (.num "2"))))))
+      (.atom (.ref "c")))
+    (.pre .not (.atom (.ref "p")))
+
+example : parseTop (Tbl.ofData exprTable) 40 (mprint sample) = some (expected sample) := by rfl
+example : expected sample =
+    .bin .and
+      (.bin .lt (.bin .mul (.pre .neg (.atom (.ref "a"))) (.pow .pow (.atom (.ref "b")) (.atom (.num "2"))))
+        (.atom (.ref "c")))
+      (.pre .not (.atom (.ref "p"))) := by rfl
+
+/-! ## Values -/
+
+/-- `expected e` — the tree pymoca builds — has the value of the source tree in every interpretation in which
+a sign moves out of a product or quotient (`(-a)*b = -(a*b)`, `(-a)/b = -(a/b)`; true in every field). -/
+theorem eval_expected {V : Type} (I : Interp V) (hI : I.SignLaw) (e : E) :
+    eval I (expected e) = eval I e :=
+  eval_expected_lemma I hI e
+
+/-- **The property**: for every expression tree, however parenthesised, the tree parsed from its Modelica text
+evaluates to the value Modelica's precedence and associativity give that text (the value of the source tree). -/
+theorem value_preserved {V : Type} (I : Interp V) (hI : I.SignLaw) (e : E) :
+    ∃ fuel, ∀ f, fuel ≤ f → (parseTop (Tbl.ofData exprTable) f (mprint e)).map (eval I) = some (eval I e) := by
+  obtain ⟨f0, h⟩ := parse_mprint e
+  refine ⟨f0, fun f hf => ?_⟩
+  rw [h f hf, Option.map_some, eval_expected I hI]
+
+/-- the rationals with the usual operations (Booleans as 0/1; anything uninterpreted as 0) -/
+def ratInterp (ρ : Atom → Rat) : Interp Rat where
+  atom := ρ
+  bin
+    | .mul, a, b | .emul, a, b => a * b
+    | .div, a, b | .ediv, a, b => a / b
+    | .add, a, b | .eadd, a, b => a + b
+    | .sub, a, b | .esub, a, b => a - b
+    | .lt, a, b => if a < b then 1 else 0
+    | .le, a, b => if a ≤ b then 1 else 0
+    | .gt, a, b => if b < a then 1 else 0
+    | .ge, a, b => if b ≤ a then 1 else 0
+    | .eq, a, b => if a = b then 1 else 0
+    | .ne, a, b => if a = b then 0 else 1
+    | .and, a, b => a * b
+    | .or, a, b => a + b - a * b
+  pre
+    | .pos, a => a
+    | .neg, a => -a
+    | .not, a => 1 - a
+  pow _ a b := if b = 2 then a * a else 0
+  ite c t e := if c = 0 then e else t
+  call _ _ := 0
+
+theorem ratInterp_signLaw (ρ : Atom → Rat) : (ratInterp ρ).SignLaw := by
+  intro s o a b hs ho
+  cases s <;> cases o <;> simp_all [ratInterp, BOp.isMul, Rat.neg_mul, Rat.div_def]
+
+example (ρ : Atom → Rat) : eval (ratInterp ρ) (expected sample) = eval (ratInterp ρ) sample :=
+  eval_expected _ (ratInterp_signLaw ρ) sample
+
+/-! ## The clauses of the property, as corollaries on token strings (for arbitrary atoms) -/
+
+section corollaries
+variable (a b c : Atom)
+
+/-- `a o b o' c` with two operators of the multiplication level is `(a o b) o' c` -/
+theorem mul_left_assoc (o o' : BOp) (ho : o.isMul = true) (ho' : o'.isMul = true) :
+    ∃ fuel, parseTop modelicaTbl fuel [.atom a, .op o.sym, .atom b, .op o'.sym, .atom c]
+      = some (.bin o' (.bin o (.atom a) (.atom b)) (.atom c)) := by
+  have := parse_mprint_lemma (.bin o' (.bin o (.atom a) (.atom b)) (.atom c))
+  cases o <;> cases o' <;> simp_all [BOp.isMul, mprint, mpr, expected, conv, strip, BOp.mlv]
+
+example : parseTop modelicaTbl 20 [.atom (.ref "a"), .op .slash, .atom (.ref "b"), .op .star, .atom (.ref "c")]
+    = some (.bin .mul (.bin .div (.atom (.ref "a")) (.atom (.ref "b"))) (.atom (.ref "c"))) := by rfl
+
+/-- the addition level (`+ - .+ .-`) is left associative: `a - b + c` is `(a - b) + c` -/
+theorem add_left_assoc (o o' : BOp) (ho : o.mlv.1 = 5) (ho' : o'.mlv.1 = 5) :
+    ∃ fuel, parseTop modelicaTbl fuel [.atom a, .op o.sym, .atom b, .op o'.sym, .atom c]
+      = some (.bin o' (.bin o (.atom a) (.atom b)) (.atom c)) := by
+  have := parse_mprint_lemma (.bin o' (.bin o (.atom a) (.atom b)) (.atom c))
+  cases o <;> cases o' <;> simp_all [mprint, mpr, expected, conv, strip, BOp.mlv]
+
+example : parseTop modelicaTbl 20 [.atom (.ref "a"), .op .minus, .atom (.ref "b"), .op .minus, .atom (.ref "c")]
+    = some (.bin .sub (.bin .sub (.atom (.ref "a")) (.atom (.ref "b"))) (.atom (.ref "c"))) := by rfl
+
+/-- multiplication binds tighter than addition on either side: `a + b * c` is `a + (b * c)` -/
+theorem mul_over_add (o o' : BOp) (ho : o.mlv.1 = 5) (ho' : o'.isMul = true) :
+    ∃ fuel, parseTop modelicaTbl fuel [.atom a, .op o.sym, .atom b, .op o'.sym, .atom c]
+      = some (.bin o (.atom a) (.bin o' (.atom b) (.atom c))) := by
+  have := parse_mprint_lemma (.bin o (.atom a) (.bin o' (.atom b) (.atom c)))
+  cases o <;> cases o' <;> simp_all [BOp.isMul, mprint, mpr, expected, conv, strip, BOp.mlv]
+
+example : parseTop modelicaTbl 20 [.atom (.ref "a"), .op .plus, .atom (.ref "b"), .op .star, .atom (.ref "c")]
+    = some (.bin .add (.atom (.ref "a")) (.bin .mul (.atom (.ref "b")) (.atom (.ref "c")))) := by rfl
+
+/-- `^` binds tighter than unary minus: `- a ^ b` is `-(a ^ b)` -/
+theorem pow_over_neg (w : WOp) :
+    ∃ fuel, parseTop modelicaTbl fuel [.op .minus, .atom a, .op w.sym, .atom b]
+      = some (.pre .neg (.pow w (.atom a) (.atom b))) := by
+  have := parse_mprint_lemma (.pre .neg (.pow w (.atom a) (.atom b)))
+  simpa [mprint, mpr, expected, conv, strip, POp.mlv, pushSign, POp.sym] using this
+
+example : parseTop modelicaTbl 20 [.op .minus, .atom (.num "2"), .op .caret, .atom (.num "2")]
+    = some (.pre .neg (.pow .pow (.atom (.num "2")) (.atom (.num "2")))) := by rfl
+
+/-- `- a * b` is built as `(-a) * b` (Modelica reads `-(a * b)`: same value by `eval_expected`) -/
+theorem neg_product (o : BOp) (ho : o.isMul = true) :
+    (∃ fuel, parseTop modelicaTbl fuel [.op .minus, .atom a, .op o.sym, .atom b]
+      = some (.bin o (.pre .neg (.atom a)) (.atom b))) ∧
+    (∀ {V : Type} (I : Interp V), I.SignLaw →
+      eval I (.bin o (.pre .neg (.atom a)) (.atom b)) = eval I (.pre .neg (.bin o (.atom a) (.atom b)))) := by
+  constructor
+  · obtain ⟨f, hf⟩ := parse_mprint_lemma (.pre .neg (.bin o (.atom a) (.atom b)))
+    refine ⟨f, ?_⟩
+    cases o <;> simp_all [BOp.isMul, mprint, mpr, expected, conv, strip, POp.mlv, BOp.mlv, pushSign, POp.sym]
+  · intro V I hI
+    simp [eval, hI .neg o _ _ (by simp) ho]
+
+example : parseTop modelicaTbl 20 [.op .minus, .atom (.ref "a"), .op .slash, .atom (.ref "b")]
+    = some (.bin .div (.pre .neg (.atom (.ref "a"))) (.atom (.ref "b"))) := by rfl
+
+/-- arithmetic binds tighter than relations, relations tighter than `not`: `not a + b < c` is `not ((a + b) < c)` -/
+theorem rel_over_not (o r : BOp) (ho : o.mlv.1 = 5) (hr : r.mlv.1 = 4) :
+    ∃ fuel, parseTop modelicaTbl fuel [.op .not, .atom a, .op o.sym, .atom b, .op r.sym, .atom c]
+      = some (.pre .not (.bin r (.bin o (.atom a) (.atom b)) (.atom c))) := by
+  have := parse_mprint_lemma (.pre .not (.bin r (.bin o (.atom a) (.atom b)) (.atom c)))
+  cases o <;> cases r <;> simp_all [mprint, mpr, expected, conv, strip, POp.mlv, BOp.mlv, POp.sym]
+
+example : parseTop modelicaTbl 20 [.op .not, .atom (.ref "a"), .op .lt, .atom (.ref "b")]
+    = some (.pre .not (.bin .lt (.atom (.ref "a")) (.atom (.ref "b")))) := by rfl
+
+/-- `not` binds tighter than `and`: `not a and b` is `(not a) and b` -/
+theorem not_over_and :
+    ∃ fuel, parseTop modelicaTbl fuel [.op .not, .atom a, .op .and, .atom b]
+      = some (.bin .and (.pre .not (.atom a)) (.atom b)) := by
+  have := parse_mprint_lemma (.bin .and (.pre .not (.atom a)) (.atom b))
+  simpa [mprint, mpr, expected, conv, strip, POp.mlv, BOp.mlv, POp.sym, BOp.sym] using this
+
+example : parseTop modelicaTbl 20 [.op .not, .atom (.ref "p"), .op .and, .atom (.ref "q")]
+    = some (.bin .and (.pre .not (.atom (.ref "p"))) (.atom (.ref "q"))) := by rfl
+
+/-- `and` binds tighter than `or`, on either side: `a or b and c` is `a or (b and c)`; `a and b or c` is `(a and b) or c` -/
+theorem and_over_or :
+    (∃ fuel, parseTop modelicaTbl fuel [.atom a, .op .or, .atom b, .op .and, .atom c]
+      = some (.bin .or (.atom a) (.bin .and (.atom b) (.atom c)))) ∧
+    (∃ fuel, parseTop modelicaTbl fuel [.atom a, .op .and, .atom b, .op .or, .atom c]
+      = some (.bin .or (.bin .and (.atom a) (.atom b)) (.atom c))) := by
+  constructor
+  · have := parse_mprint_lemma (.bin .or (.atom a) (.bin .and (.atom b) (.atom c)))
+    simpa [mprint, mpr, expected, conv, strip, BOp.mlv, BOp.sym] using this
+  · have := parse_mprint_lemma (.bin .or (.bin .and (.atom a) (.atom b)) (.atom c))
+    simpa [mprint, mpr, expected, conv, strip, BOp.mlv, BOp.sym] using this
+
+example : parseTop modelicaTbl 20 [.atom (.ref "a"), .op .or, .atom (.ref "b"), .op .and, .atom (.ref "c")]
+    = some (.bin .or (.atom (.ref "a")) (.bin .and (.atom (.ref "b")) (.atom (.ref "c")))) := by rfl
+
+end corollaries
+
+/-! ## Literals -/
+
+/-- An unsigned integer literal (the decimal digits of any natural number) is read as that integer, with
+integer type (`int()` accepts it). -/
+theorem int_literal_exact (n : Nat) :
+    litValue (String.ofList (Nat.toDigits 10 n)) = some { isInt := true, value := (n : Rat) } :=
+  litValue_int n
+
+example : litValue (String.ofList (Nat.toDigits 10 2026)) = some { isInt := true, value := 2026 } :=
+  int_literal_exact 2026
+
+/-- A real literal `i.d₁…d_k e±x`: digits of `i`, a fraction part of `k` digits with value `fv`
+(zero padded), an exponent; read as exactly `(i + fv / 10^k) · 10^x`, with real type. -/
+theorem real_literal_exact (i k fv : Nat) (hfv : fv < 10 ^ k) (neg : Bool) (x : Nat) :
+    litValue (String.ofList (Nat.toDigits 10 i ++ '.' :: padDigits k fv ++ 'e' :: (if neg then ['-'] else []) ++
+        Nat.toDigits 10 x))
+      = some { isInt := false,
+               value := ((i : Rat) + (fv : Rat) / ((10 ^ k : Nat) : Rat)) * pow10 (if neg then - (x : Int) else x) } :=
+  litValue_real i k fv hfv neg x
+
+/-- `12.50e-1` -/
+example : litValue (String.ofList (Nat.toDigits 10 12 ++ '.' :: padDigits 2 50 ++ 'e' :: ['-'] ++ Nat.toDigits 10 1))
+    = some { isInt := false, value := ((12 : Nat) + (50 : Nat) / ((10 ^ 2 : Nat) : Rat)) * pow10 (-(1 : Nat)) } :=
+  real_literal_exact 12 2 50 (by decide) true 1
+
+end PymocaVerif.Props.C03
